@@ -1,20 +1,228 @@
-(** Agreement with the model implies the spec on the implementation's own observations - PARTIAL.
+(** * Agreement with the model implies the executable spec (property C18).
 
-    Proved ([agree_implies_main_only]): for EVERY variant (so in particular for the repaired one), if the
-    implementation's observations agree with the model on a case, then the C18_main_only part of the executable
-    spec holds on those observations: everything a successful run handed to the sink is an id of the main dataset.
+    [model_meets_spec]: the repaired model ([sound_l]: the three repairs, plus SkipPrev when LatestOnly) meets the
+    WHOLE executable spec [spec_ok] on its own observations, for every well-formed case.
+    [agree_implies_spec]: if the implementation's observations agree with the repaired model, [spec_ok] holds on
+    them, with the two observations that agreement cannot determine taken from the model ([okobs]): the marker
+    count (entity content is not modelled) and WHICH ids a run that ended with a sink failure had delivered (the
+    order inside a dependency's result list is not modelled; [agree] compares their number).  For those two the
+    check evaluates [spec_ok] on the implementation's observation; that part is not (and cannot be) linked.
+    [agree_implies_main_only] (older, every variant): the main-only part on the implementation's own ids.
 
-    Not proved (gap): the [dep_covered] / [main_covered] / [tokens_in_range] parts of [run_spec_ok] for
-    [v_fixed].  They are the run-level, executable form of [tokens_safe] (Proofs/MultiSourceProofs.v): the
-    missing step is (i) the equivalence between the spec evaluators [now_targets] / [prev_targets] (walks) and
-    the relational [required], of which only the direction "required -> delivered" is proved ([walk_now],
-    [walk_prev]), and (ii) re-basing the previous-run view of later pages of one run on the run's start token
-    (an entity's first change in the run is processed against the view the run started with).  The check
-    evaluates the full [spec_ok] on every case and reports every case where it fails on the implementation. *)
+    Route: soundness of the executable target sets ([walk_sound_now], [walk_sound_prev]) + stability of the
+    previous-run view between the run's start token and the page that first meets the entity
+    ([hop_rel_cut_stable], [first_occurrence]) turn the run-level lemmas of Proofs/MultiSourceProofs.v
+    ([inc_pages_safe], [inc_pages_main_safe], [full_run_token]) into [dep_covered] / [main_covered] /
+    [mid_covered] = true; [jinv] gives [tokens_in_range]. *)
 From Coq Require Import List ZArith NArith Bool Arith Lia.
 From DH Require Import Lib.CheckLib Model.MultiSource Proofs.MultiSourceProofs Check.C18Check.
 Import ListNotations.
+Local Open Scope Z_scope.
 
+(** * the walk only finds what the declared joins connect (soundness of the executable target sets) *)
+Lemma walk_sound_follow : forall h now pv js prev starts m,
+  In m (walk h now pv false prev js starts []) -> exists y, In y starts /\ path h now prev js y m.
+Proof.
+  induction js as [|j js IH]; intros prev starts m H; cbn [walk] in H.
+  - exists m. split; auto. reflexivity.
+  - cbn [andb] in H. rewrite app_nil_r in H. apply IH in H. destruct H as (z & Hz & Hp).
+    apply (proj1 (dedup_In _ _)) in Hz. apply in_flat_map in Hz. destruct Hz as (y & Hy & Hz). rewrite app_nil_r in Hz.
+    exists y. split; auto. cbn [path]. exists z. split; auto. now apply related_spec.
+Qed.
+
+Lemma walk_sound_now : forall h now prev js cur m,
+  In m (walk h now PvNone true prev js cur []) -> exists x, In x cur /\ path h now prev js x m.
+Proof.
+  intros h now prev js cur m H. destruct js as [|j js]; cbn [walk] in H.
+  - exists m. split; auto. reflexivity.
+  - apply walk_sound_follow in H. destruct H as (z & Hz & Hp). apply (proj1 (dedup_In _ _)) in Hz.
+    assert (Hz' : In z (flat_map (fun e => related h [prev; j_ds j] now j e) cur)).
+    { apply in_app_or in Hz. destruct Hz as [Hz|Hz].
+      - apply in_flat_map in Hz. destruct Hz as (y & Hy & Hz). apply in_flat_map. exists y. split; auto.
+        apply in_app_or in Hz. destruct Hz as [Hz|Hz]; auto. destruct (true && negb (j_inv j)); destruct Hz.
+      - destruct (true && negb (j_inv j)); destruct Hz. }
+    apply in_flat_map in Hz'. destruct Hz' as (y & Hy & Hz'). exists y. split; auto.
+    cbn [path]. exists z. split; auto. now apply related_spec.
+Qed.
+
+Lemma walk_sound_prev : forall h now h' prev j js old m,
+  In m (walk h now (PvHub h') true prev (j :: js) [] old) ->
+  j_inv j = false /\ exists x, In x old /\ exists y, hop_rel h' [prev; j_ds j] now j x y /\ path h now (j_ds j) js y m.
+Proof.
+  intros h now h' prev j js old m H. cbn [walk flat_map app] in H.
+  apply walk_sound_follow in H. destruct H as (z & Hz & Hp). apply (proj1 (dedup_In _ _)) in Hz.
+  destruct (j_inv j) eqn:Ei; cbn [negb andb] in Hz; [destruct Hz|]. split; auto.
+  apply in_flat_map in Hz. destruct Hz as (x & Hx & Hz). exists x. split; auto. exists z. split; auto.
+  cbn [prev_related] in Hz. now apply related_spec.
+Qed.
+
+(** * the previous-run view only depends on the entity's own history *)
+Lemma feed_of_cut : forall h k a k',
+  feed_of (cut_hub h k a) k' = if Nat.eqb k' k then firstz a (feed_of h k) else feed_of h k'.
+Proof.
+  intros. unfold cut_hub, feed_of. cbn [h_feeds]. rewrite nth_set_nth. destruct (Nat.eqb k' k) eqn:E; auto.
+  destruct (Nat.ltb k (length (h_feeds h))) eqn:El; auto. apply Nat.ltb_ge in El.
+  rewrite (nth_overflow _ _ El). destruct (a <=? 0); reflexivity.
+Qed.
+
+Lemma latest_at_app : forall l1 l2 t i,
+  latest_at (l1 ++ l2) t i = match latest_at l2 t i with Some w => Some w | None => latest_at l1 t i end.
+Proof.
+  induction l1 as [|y l1 IH]; intros l2 t i; cbn [app latest_at].
+  - destruct (latest_at l2 t i); reflexivity.
+  - rewrite IH. destruct (latest_at l2 t i); auto.
+Qed.
+
+Lemma latest_at_none : forall l t i, (forall x, In x l -> v_id x <> i) -> latest_at l t i = None.
+Proof.
+  induction l as [|y l IH]; intros t i H; cbn [latest_at]; auto.
+  rewrite IH by (intros; apply H; now right). unfold vis.
+  destruct (N.eqb_spec (v_id y) i) as [E|E]; auto. exfalso. apply (H y); auto. now left.
+Qed.
+
+Lemma firstz_split : forall f a n, 0 <= a -> 0 <= n -> firstz (a + n) f = firstz a f ++ firstz n (dropz a f).
+Proof.
+  induction f as [|y f IH]; intros a n Ha Hn.
+  - cbn. destruct (a + n <=? 0), (a <=? 0), (n <=? 0); reflexivity.
+  - destruct (Z.eq_dec a 0) as [->|Ha0].
+    + cbn [Z.add]. rewrite dropz_le0 by lia. cbn [firstz]. reflexivity.
+    + cbn [firstz]. destruct (Z.leb_spec (a + n) 0); [lia|]. destruct (Z.leb_spec a 0); [lia|].
+      rewrite dropz_cons by lia. cbn [app]. f_equal. replace (a + n - 1) with ((a - 1) + n) by lia. apply IH; lia.
+Qed.
+
+Lemma firstz_In : forall f n x, In x (firstz n f) -> exists q, 0 <= q < n /\ nthz f q = Some x.
+Proof.
+  induction f as [|y f IH]; intros n x H; [destruct H|]. cbn [firstz] in H.
+  destruct (Z.leb_spec n 0); [destruct H|]. destruct H as [<-|H].
+  - exists 0. split; [lia|reflexivity].
+  - apply IH in H. destruct H as (q & Hq & Hx). exists (q + 1). split; [lia|].
+    rewrite nthz_cons by lia. rewrite <- Hx. f_equal. lia.
+Qed.
+
+Lemma latest_firstz_stable : forall f a b t i,
+  0 <= a <= b -> (forall q y, a <= q < b -> nthz f q = Some y -> v_id y <> i) ->
+  latest_at (firstz a f) t i = latest_at (firstz b f) t i.
+Proof.
+  intros f a b t i Hab Hno.
+  assert (Hn : latest_at (firstz (b - a) (dropz a f)) t i = None).
+  { apply latest_at_none. intros x Hx. apply firstz_In in Hx. destruct Hx as (q & Hq & Hx).
+    rewrite nthz_dropz in Hx by lia. apply (Hno (a + q) x); auto. lia. }
+  assert (Hb : firstz b f = firstz a f ++ firstz (b - a) (dropz a f)).
+  { rewrite <- firstz_split by lia. f_equal. lia. }
+  rewrite Hb, latest_at_app, Hn. reflexivity.
+Qed.
+
+Lemma first_occurrence : forall (f : feed) n b0 p x,
+  0 <= b0 -> p = b0 + Z.of_nat n -> nthz f p = Some x ->
+  exists p1 x1, b0 <= p1 <= p /\ nthz f p1 = Some x1 /\ v_id x1 = v_id x /\
+                forall q y, b0 <= q < p1 -> nthz f q = Some y -> v_id y <> v_id x.
+Proof.
+  intros f. induction n as [|n IH]; intros b0 p x Hb Hp Hx.
+  - exists p, x. split; [lia|]. split; auto. split; auto. intros; lia.
+  - destruct (nthz_some f b0) as [y0 Hy0]; [pose proof (nthz_range _ _ _ Hx); lia|].
+    destruct (N.eq_dec (v_id y0) (v_id x)) as [E|E].
+    + exists b0, y0. split; [lia|]. split; auto. split; auto. intros; lia.
+    + destruct (IH (b0 + 1) p x ltac:(lia) ltac:(lia) Hx) as (p1 & x1 & Hr & Hx1 & Hid & Hno).
+      exists p1, x1. split; [lia|]. split; auto. split; auto. intros q y Hq Hy.
+      destruct (Z.eq_dec q b0) as [->|Hq0]; [congruence|]. apply (Hno q y); auto. lia.
+Qed.
+
+Lemma range_tails_In : forall l pos from to x later,
+  In (x, later) (range_tails l pos from to) ->
+  exists p, from <= p < to /\ pos <= p /\ nthz l (p - pos) = Some x /\ later = dropz (p - pos + 1) l.
+Proof.
+  induction l as [|y l IH]; intros pos from to x later H; [destruct H|]. cbn [range_tails] in H.
+  apply in_app_or in H. destruct H as [H|H].
+  - destruct (Z.leb_spec from pos); cbn [andb] in H; [|destruct H]. destruct (Z.ltb_spec pos to); [|destruct H].
+    destruct H as [[= -> ->]|[]]. exists pos. split; [lia|]. split; [lia|]. replace (pos - pos) with 0 by lia.
+    split; [reflexivity|]. cbn. now rewrite dropz_le0 by lia.
+  - apply IH in H. destruct H as (p & Hr & Hp & Hx & ->). exists p. split; auto. split; [lia|]. split.
+    + rewrite nthz_cons by lia. rewrite <- Hx. f_equal. lia.
+    + rewrite dropz_cons by lia. f_equal. lia.
+Qed.
+
+Lemma range_tails_empty : forall l pos from to, to <= from -> range_tails l pos from to = [].
+Proof.
+  induction l as [|y l IH]; intros pos from to H; cbn [range_tails]; auto. rewrite IH by auto.
+  destruct (Z.leb_spec from pos), (Z.ltb_spec pos to); cbn; auto. lia.
+Qed.
+
+
+Lemma hop_rel_cut_stable : forall h ds a a' scope t j x y,
+  j_inv j = false -> 0 <= a <= a' ->
+  (forall q w, a <= q < a' -> nthz (feed_of h ds) q = Some w -> v_id w <> x) ->
+  hop_rel (cut_hub h ds a) scope t j x y -> hop_rel (cut_hub h ds a') scope t j x y.
+Proof.
+  intros h ds a a' scope t j x y Hi Ha Hno (k & Hk & H). exists k. split; auto. rewrite Hi in *.
+  unfold triple_at in *. rewrite feed_of_cut in *. destruct (Nat.eqb k ds); auto.
+  rewrite <- (latest_firstz_stable (feed_of h ds) a a' t x Ha Hno). exact H.
+Qed.
+
+Lemma subsetN_intro : forall a b, (forall m, In m a -> In m b) -> subsetN a b = true.
+Proof. intros a b H. unfold subsetN. apply forallb_forall. intros x Hx. apply memN_In. auto. Qed.
+
+Section RunSpec.
+  Variables (v : variant) (c : cfg) (h : hub) (b : nat).
+  Hypothesis Hs : f_shared v = SharedSnapshot.
+  Hypothesis Hp : f_prev v = PrevFeed.
+  Hypothesis Hsk : c_latest c = true -> f_skip v = SkipPrev.
+  Hypothesis Hb : (1 <= b)%nat.
+
+  Lemma inc_dep_covered : forall tk cs1 k cs2 E dp,
+    tok_ok tk -> inc_pages v c h b (fuel_of h c) tk = cs1 ++ k :: cs2 ->
+    (forall m, In m (ents (cs1 ++ [k])) -> In m E) -> In dp (c_deps c) ->
+    dep_covered c h (t_deps tk) (t_deps (k_tok k)) E dp = true.
+  Proof.
+    intros tk cs1 k cs2 E dp Hok Hcs HE Hdp. unfold dep_covered. apply forallb_forall. intros [x later] Hin.
+    apply range_tails_In in Hin. destruct Hin as (p & Hr & Hp0 & Hx & ->). rewrite Z.sub_0_r in *.
+    fold (dtok tk (d_ds dp)) in *. fold (dtok (k_tok k) (d_ds dp)) in *.
+    pose proof Hok as [Hok1 _]. pose proof (Hok1 (d_ds dp)) as Hb0.
+    assert (Hpost : forall pre post m, cs1 ++ [k] = pre ++ post -> In m (ents post) -> In m E).
+    { intros pre post m Epp Hm. apply HE. rewrite Epp, ents_app. apply in_or_app. now right. }
+    apply andb_true_iff. split.
+    - destruct (c_latest c && superseded x (dropz (p + 1) (feed_of h (d_ds dp)))) eqn:Esk; auto.
+      apply subsetN_intro. intros m Hm. unfold now_targets in Hm.
+      destruct (d_joins dp) as [|j js] eqn:Ej; [destruct Hm|]. apply filter_In in Hm. destruct Hm as [Hm Hlive].
+      apply walk_sound_now in Hm. destruct Hm as (x' & [<-|[]] & Hpath).
+      destruct (inc_pages_safe v c h b Hs Hp Hsk Hb (fuel_of h c) tk Hok cs1 k cs2 Hcs dp Hdp p Hr) as (pre & post & Epp & _ & Hreq).
+      apply (Hpost pre post m Epp). apply Hreq. exists x. split; auto. split; auto. left. split; auto.
+      split; [congruence|]. rewrite Ej. exact Hpath.
+    - apply subsetN_intro. intros m Hm. unfold prev_targets in Hm.
+      destruct (d_joins dp) as [|j js] eqn:Ej; [destruct Hm|].
+      destruct (Z.leb_spec (dtok tk (d_ds dp)) 0) as [|Hpos]; [destruct Hm|].
+      apply filter_In in Hm. destruct Hm as [Hm Hlive].
+      apply walk_sound_prev in Hm. destruct Hm as (Hinv & x' & [<-|[]] & y & Hhop & Hpath).
+      destruct (first_occurrence (feed_of h (d_ds dp)) (Z.to_nat (p - dtok tk (d_ds dp))) (dtok tk (d_ds dp)) p x
+                  ltac:(lia) ltac:(lia) Hx) as (p1 & x1 & Hr1 & Hx1 & Hid & Hno).
+      destruct (inc_pages_safe v c h b Hs Hp Hsk Hb (fuel_of h c) tk Hok cs1 k cs2 Hcs dp Hdp p1 ltac:(lia))
+        as (pre & post & Epp & Hle & Hreq).
+      assert (Hge : dtok tk (d_ds dp) <= dtok (tok_after pre tk) (d_ds dp)).
+      { destruct (tok_after_In pre tk) as [[_ ->]|(k' & Hk' & ->)]; [lia|].
+        apply (inc_pages_tok_ge v c h b Hs Hp Hsk Hb (fuel_of h c) tk Hok). rewrite Hcs.
+        assert (Hin' : In k' (cs1 ++ [k])) by (rewrite Epp; apply in_or_app; now left).
+        apply in_app_or in Hin'. apply in_or_app. destruct Hin' as [H|[<-|[]]]; [now left|right; now left]. }
+      apply (Hpost pre post m Epp). apply Hreq. exists x1. split; auto. split; auto. right.
+      unfold connected_prev. rewrite Ej. split; auto. split; [lia|]. exists y. split; auto. rewrite Hid.
+      apply (hop_rel_cut_stable h (d_ds dp) (dtok tk (d_ds dp)) (dtok (tok_after pre tk) (d_ds dp))); auto.
+      intros q w Hq Hw. apply (Hno q w); auto. lia.
+  Qed.
+
+  Lemma inc_main_covered : forall tk cs1 k cs2 E,
+    tok_ok tk -> inc_pages v c h b (fuel_of h c) tk = cs1 ++ k :: cs2 ->
+    (forall m, In m (ents (cs1 ++ [k])) -> In m E) ->
+    main_covered c h (t_main tk) (t_main (k_tok k)) E = true.
+  Proof.
+    intros tk cs1 k cs2 E Hok Hcs HE. unfold main_covered. apply forallb_forall. intros [x later] Hin.
+    apply range_tails_In in Hin. destruct Hin as (p & Hr & Hp0 & Hx & ->). rewrite Z.sub_0_r in *.
+    destruct (c_latest c && superseded x (dropz (p + 1) (feed_of h (c_main c)))) eqn:Esk; auto. cbn [orb].
+    apply memN_In. apply HE.
+    destruct (inc_pages_main_safe v c h b Hs Hp Hsk Hb (fuel_of h c) tk Hok) as [_ Hsafe].
+    eapply Hsafe; eauto.
+  Qed.
+End RunSpec.
+
+
+(** * small facts about the evaluator's helpers *)
 Lemma insertN_In : forall x y l, In x (insertN y l) <-> x = y \/ In x l.
 Proof.
   induction l as [|z l IH]; cbn [insertN In].
@@ -28,15 +236,21 @@ Proof.
   split; intros [H|H]; auto.
 Qed.
 
-Lemma ev_ents_sub : forall evs x, In x (concat (ev_ents evs)) -> In x (ents_of evs).
+Lemma ev_ents_In : forall evs x, In x (concat (ev_ents evs)) <-> In x (ents_of evs).
 Proof.
-  induction evs as [|e evs IH]; intros x H; cbn in *; [auto|].
-  destruct e as [k vs|es tk]; [auto|]. destruct es as [|y es]; [cbn; auto|].
-  cbn [concat] in H. apply in_app_or in H. apply in_or_app. destruct H; auto.
+  induction evs as [|e evs IH]; intros x; cbn [ev_ents ents_of concat]; [tauto|].
+  destruct e as [k vs|es tk]; [apply IH|]. destruct es as [|y es]; [cbn [app]; apply IH|].
+  cbn [concat]. rewrite !in_app_iff, IH. tauto.
 Qed.
 
-Lemma nlist_eqb_eq : forall a b, list_eqb N.eqb a b = true -> a = b.
-Proof. intros a b H. apply (list_eqb_eq N.eqb); auto. intros x y. apply N.eqb_eq. Qed.
+Lemma after_append_none : forall evs, no_append evs -> after_append evs = None.
+Proof. induction evs as [|e evs IH]; cbn [no_append after_append]; auto. destruct e; [intros []|auto]. Qed.
+
+Lemma after_append_mid : forall e1 e2 ds vs, no_append e1 -> after_append (e1 ++ EvAppend ds vs :: e2) = Some e2.
+Proof.
+  induction e1 as [|e e1 IH]; intros e2 ds vs H; cbn [app no_append after_append] in *; auto.
+  destruct e; [destruct H|auto].
+Qed.
 
 Lemma no_append_run_events : forall v c h job full b fail core evs ok,
   run_events v c h job full b fail core = (evs, ok) -> no_append evs.
@@ -48,13 +262,354 @@ Proof.
     destruct H as (l1 & l2 & _ & -> & _). apply no_append_pairs.
 Qed.
 
-Lemma after_append_none : forall evs, no_append evs -> after_append evs = None.
-Proof. induction evs as [|e evs IH]; cbn [no_append after_append]; auto. destruct e; [intros []|auto]. Qed.
+(** * the state invariant the executable spec needs *)
+Definition jinv (c : cfg) (s : state) : Prop :=
+  forall tk, s_job s = Some tk ->
+    tok_ok tk /\ deps_in (s_hub s) tk /\ t_main tk <= lenz (feed_of (s_hub s) (c_main c)).
 
-Lemma after_append_mid : forall e1 e2 ds vs, no_append e1 -> after_append (e1 ++ EvAppend ds vs :: e2) = Some e2.
+Lemma deps_in_append : forall h k vs tk, deps_in h tk -> deps_in (append_hub h k vs) tk.
+Proof. intros h k vs tk H k' z Hin. specialize (H k' z Hin). pose proof (lenz_append h k vs k'). lia. Qed.
+
+Lemma full_pages_fin : forall c h b, (1 <= b)%nat -> forall fuel pos ps fin, 0 <= pos ->
+  full_pages c h b fuel pos = (ps, fin) -> pos <= fin <= Z.max pos (lenz (feed_of h (c_main c))).
 Proof.
-  induction e1 as [|e e1 IH]; intros e2 ds vs H; cbn [app no_append after_append] in *; auto.
-  destruct e; [destruct H|auto].
+  intros c h b Hb. induction fuel as [|fuel IH]; intros pos ps fin Hpos H; cbn [full_pages] in H.
+  - injection H as <- <-. lia.
+  - destruct (changes (feed_of h (c_main c)) pos b (c_latest c)) as [[vs sk] cont] eqn:E.
+    pose proof (changes_gen _ _ _ _ _ _ _ Hb Hpos E) as (H1 & H2 & _).
+    destruct vs as [|v0 vs]; [injection H as <- <-; lia|].
+    destruct (full_pages c h b fuel cont) as [ps' fin'] eqn:Er. injection H as <- <-.
+    specialize (IH cont ps' fin' ltac:(lia) Er). lia.
+Qed.
+
+Lemma wm_tokens_In : forall v c h core k z, f_wm v = WmOwn ->
+  In (k, z) (wm_tokens v c h core) -> z = lenz (feed_of h k).
+Proof.
+  intros v c h core k z Hw. unfold wm_tokens, watermark. rewrite Hw.
+  assert (G : forall l acc, (forall k z, In (k, z) acc -> z = lenz (feed_of h k)) ->
+            forall k z, In (k, z) (fold_left (fun l dp => tok_set l (d_ds dp) (lenz (feed_of h (d_ds dp)))) l acc) ->
+                        z = lenz (feed_of h k)).
+  { induction l as [|d0 l IH]; intros acc Ha k' z' Hin; cbn [fold_left] in Hin; [eauto|].
+    eapply IH; [|exact Hin]. intros k1 z1 H1. apply tok_set_In in H1. destruct H1 as [[= -> ->]|H1]; eauto. }
+  apply G. intros ? ? [].
+Qed.
+
+(** the token a full sync stores, and what it has delivered when it completes *)
+Lemma full_run_token : forall v c h job (full : bool) b fail core evs ok,
+  (1 <= b)%nat -> (if full then @None tokens else job) = None ->
+  run_events v c h job full b fail core = (evs, ok) ->
+  (last_tok evs job = job \/
+   exists fin, last_tok evs job = Some (mkTok fin (wm_tokens v c h core)) /\ 0 <= fin <= lenz (feed_of h (c_main c))) /\
+  (ok = true -> exists fin, last_tok evs job = Some (mkTok fin (wm_tokens v c h core)) /\
+                            forall m, In m (map v_id (feed_of h (c_main c))) -> In m (ents_of evs)).
+Proof.
+  intros v c h job full b fail core evs ok Hb Ej Er. unfold run_events in Er. rewrite Ej in Er.
+  destruct (full_pages c h b (fuel_of h c) 0) as [ps fin] eqn:Ef.
+  pose proof (full_pages_fin c h b Hb (fuel_of h c) 0 ps fin ltac:(lia) Ef) as Hfin.
+  apply cut_calls_prefix in Er. destruct Er as (l1 & l2 & Hsp & -> & Hok).
+  assert (Hcomplete : l2 = [] -> last_tok (map ev_of_pair l1) job = Some (mkTok fin (wm_tokens v c h core)) /\
+                                 forall m, In m (map v_id (feed_of h (c_main c))) -> In m (ents_of (map ev_of_pair l1))).
+  { intros ->. rewrite app_nil_r in Hsp. subst l1. rewrite map_app. cbn [map ev_of_pair fst snd]. split.
+    - clear. induction ps; cbn; auto.
+    - intros m Hm. rewrite ents_of_app, ents_of_none. apply in_or_app. left.
+      destruct (full_pages_complete c h b Hb (fuel_of h c) 0 ps fin ltac:(lia)
+                  ltac:(unfold fuel_of, lenz; lia) Ef) as [_ Hall].
+      apply last_occurrence in Hm. destruct Hm as (p & y & Hy & <- & Hsup). pose proof (nthz_range _ _ _ Hy).
+      apply (Hall p y); [lia|exact Hy|]. unfold skipped. rewrite Hsup. apply andb_false_r. }
+  split.
+  - destruct l2 as [|e2 l2].
+    + right. exists fin. split; [apply Hcomplete; auto|unfold lenz in *; lia].
+    + left. apply app_last_split in Hsp; [|discriminate]. destruct Hsp as (l2' & _ & Hps).
+      apply map_eq_app' in Hps. destruct Hps as (a1 & a2 & _ & -> & _). apply last_tok_none.
+  - intros ->. exists fin. apply Hcomplete. auto.
+Qed.
+
+Lemma step_jinv : forall v c s o s' evs ok,
+  sound_l v c -> batch_ok c o -> jinv c s -> step v c s o = (s', evs, ok) -> jinv c s'.
+Proof.
+  intros v c s o s' evs ok ((Hs & Hp & Hw) & Hsk) Hb Hj H.
+  assert (Hfull : forall hub' evs0 ok0 (full : bool) b fail core,
+            (1 <= b)%nat -> (if full then @None tokens else s_job s) = None ->
+            run_events v c (s_hub s) (s_job s) full b fail core = (evs0, ok0) ->
+            (forall k, lenz (feed_of (s_hub s) k) <= lenz (feed_of hub' k)) ->
+            jinv c (mkSt hub' (last_tok evs0 (s_job s)))).
+  { intros hub' evs0 ok0 full b fail core Hb' Ej Er Hlen tk Htk. cbn [s_job s_hub] in *.
+    destruct (full_run_token v c (s_hub s) (s_job s) full b fail core evs0 ok0 Hb' Ej Er) as [[Hsame|(fin & Hl & Hfin)] _].
+    - rewrite Hsame in Htk. destruct (Hj tk Htk) as (Hok & Hd & Hm). split; auto. split.
+      + intros k z Hin. specialize (Hd k z Hin). specialize (Hlen k). lia.
+      + specialize (Hlen (c_main c)). lia.
+    - rewrite Hl in Htk. injection Htk as <-.
+      assert (Hd : deps_in hub' (mkTok fin (wm_tokens v c (s_hub s) core))).
+      { intros k z Hin. cbn [t_deps] in Hin. apply wm_tokens_In in Hin; auto. subst z. specialize (Hlen k).
+        unfold lenz in *. lia. }
+      split; [|split; auto].
+      + split; [|cbn; lia]. intros k. apply (deps_in_dtok hub' _ k Hd).
+      + cbn [t_main]. specialize (Hlen (c_main c)). lia. }
+  destruct o as [k vs|full b fail core|b fail core k ds vs]; cbn [step] in H.
+  - injection H as <- _ _. intros tk Htk. cbn [s_hub s_job] in *. destruct (Hj tk Htk) as (Hok & Hd & Hm).
+    split; auto. split; [now apply deps_in_append|]. pose proof (lenz_append (s_hub s) k vs (c_main c)). lia.
+  - destruct (run_events v c (s_hub s) (s_job s) full b fail core) as [evs0 ok0] eqn:Er.
+    injection H as <- _ _. cbn [batch_ok] in Hb.
+    destruct (if full then None else s_job s) as [tk|] eqn:Ej.
+    + assert (Hjob : s_job s = Some tk) by (destruct full; [discriminate|auto]).
+      destruct (Hj tk Hjob) as (Hok & Hd & Hm).
+      unfold run_events in Er. rewrite Ej in Er.
+      apply cut_calls_prefix in Er. destruct Er as (l1 & l2 & Hsp & -> & _).
+      apply map_eq_app' in Hsp. destruct Hsp as (cs1 & cs2 & Hcs & -> & _).
+      rewrite map_map. change (map (fun x : call => ev_of_pair (k_ents x, Some (k_tok x)))) with (map ev_of_call).
+      rewrite Hjob, last_tok_calls. intros tk' Htk'. cbn [s_job s_hub] in *. injection Htk' as <-.
+      destruct (tok_after_In cs1 tk) as [[_ ->]|(k & Hk & ->)]; [auto|].
+      assert (Hin : In k (inc_pages v c (s_hub s) b (fuel_of (s_hub s) c) tk)) by (rewrite Hcs; apply in_or_app; now left).
+      split; [eapply inc_pages_tok_ok; eauto|]. split; [eapply inc_pages_deps_in; eauto|].
+      destruct (inc_pages_main_safe v c (s_hub s) b Hs Hp Hsk Hb (fuel_of (s_hub s) c) tk Hok) as [Hbd _].
+      specialize (Hbd k Hin). lia.
+    + destruct s as [hub job]. cbn [s_hub s_job] in *. eapply (Hfull hub); eauto. intros; lia.
+  - destruct (run_events v c (s_hub s) (s_job s) true b fail core) as [evs0 ok0] eqn:Er.
+    destruct (insert_mid evs0 k (EvAppend ds vs)) as [evs1 ins] eqn:Ei. injection H as <- _ _.
+    cbn [batch_ok] in Hb. destruct Hb as [Hb _].
+    assert (Hl : last_tok evs1 (s_job s) = last_tok evs0 (s_job s)).
+    { destruct (insert_mid_spec _ _ _ _ _ Ei) as [[_ ->]|(_ & e1 & e2 & -> & ->)]; auto.
+      rewrite !last_tok_app. reflexivity. }
+    rewrite Hl.
+    apply (Hfull (if ins then append_hub (s_hub s) ds vs else s_hub s) evs0 ok0 true b fail core Hb eq_refl Er).
+    intros k'. destruct ins; [apply lenz_append|lia].
+Qed.
+
+
+Lemma obs_tokens_self : forall r evs ok job,
+  (forall tk, job = Some tk -> 0 <= t_main tk) -> obs_tokens (self_run r evs ok job) = job.
+Proof.
+  intros r evs ok job H. unfold obs_tokens, self_run. cbn [tr_main tr_deps]. destruct job as [tk|]; cbn [tok_obs fst snd].
+  - specialize (H tk eq_refl). destruct (Z.ltb_spec (t_main tk) 0); [lia|]. destruct tk; reflexivity.
+  - reflexivity.
+Qed.
+
+Lemma tokens_in_range_jinv : forall c s tk, jinv c s -> s_job s = Some tk ->
+  tokens_in_range c (s_hub s) (t_main tk) (t_deps tk) = true.
+Proof.
+  intros c s tk Hj Htk. destruct (Hj tk Htk) as ((_ & Hm0) & Hd & Hm). unfold tokens_in_range.
+  apply andb_true_iff. split; [apply andb_true_iff; split; apply Z.leb_le; lia|].
+  apply forallb_forall. intros [k z] Hin. specialize (Hd k z Hin). cbn [fst snd].
+  apply andb_true_iff. split; apply Z.leb_le; lia.
+Qed.
+
+Lemma self_emitted_sub : forall evs m l, (forall x, In x (ents_of evs) -> In x l) ->
+  In m (sortN (concat (ev_ents evs))) -> In m l.
+Proof. intros evs m l H Hm. apply (proj1 (sortN_In _ _)) in Hm. apply (proj1 (ev_ents_In _ _)) in Hm. auto. Qed.
+
+Lemma self_emitted_sup : forall evs m, In m (ents_of evs) -> In m (sortN (concat (ev_ents evs))).
+Proof. intros evs m Hm. apply (proj2 (sortN_In _ _)). now apply (proj2 (ev_ents_In _ _)). Qed.
+
+Lemma forallb_nil_range : forall {A} (f : A -> bool) l, l = [] -> forallb f l = true.
+Proof. intros A f l ->. reflexivity. Qed.
+
+Lemma self_run_spec : forall v c s r s' evs ok,
+  sound_l v (cfg_of c) -> (1 <= tc_batch c)%nat -> wf_run c r = true -> jinv (cfg_of c) s ->
+  step v (cfg_of c) s (op_of c (TRun r)) = (s', evs, ok) ->
+  run_spec_ok (cfg_of c) (s_hub s) (s_job s) (self_run r evs ok (s_job s')) = true
+  /\ run_hub (s_hub s) (self_run r evs ok (s_job s')) = s_hub s'
+  /\ obs_tokens (self_run r evs ok (s_job s')) = s_job s'
+  /\ jinv (cfg_of c) s'.
+Proof.
+  intros v c s r s' evs ok Hv Hb Hwf Hj Hstep. set (cfg := cfg_of c) in *.
+  pose proof Hv as ((Hs & Hp & Hw) & Hsk).
+  assert (Hbok : batch_ok cfg (op_of c (TRun r))).
+  { cbn [op_of]. unfold wf_run in Hwf. destruct (tr_mid r) as [[[k ds] vs]|]; cbn [batch_ok]; auto.
+    apply andb_true_iff in Hwf. destruct Hwf as [_ Hne]. apply negb_true_iff, Nat.eqb_neq in Hne. split; auto. }
+  pose proof (step_jinv v cfg s _ s' evs ok Hv Hbok Hj Hstep) as Hj'.
+  pose proof (step_main v cfg s _ s' evs ok Hstep) as [Hmain _].
+  assert (Hobs : obs_tokens (self_run r evs ok (s_job s')) = s_job s').
+  { apply obs_tokens_self. intros tk Htk. destruct (Hj' tk Htk) as ((_ & H0) & _). exact H0. }
+  (* the hub after the run *)
+  assert (Hhub : run_hub (s_hub s) (self_run r evs ok (s_job s')) = s_hub s').
+  { unfold run_hub, self_run. cbn [tr_mid tr_middone]. cbn [op_of] in Hstep.
+    destruct (tr_mid r) as [[[k ds] vs]|]; cbn [step] in Hstep.
+    - destruct (run_events v cfg (s_hub s) (s_job s) true (tc_batch c) (tr_fail r) (tr_core r)) as [evs0 ok0] eqn:Er.
+      destruct (insert_mid evs0 k (EvAppend ds vs)) as [evs1 ins] eqn:Ei. injection Hstep as <- <- _. cbn [s_hub].
+      pose proof (no_append_run_events _ _ _ _ _ _ _ _ _ _ Er) as Hna.
+      destruct (insert_mid_spec _ _ _ _ _ Ei) as [[-> ->]|(-> & e1 & e2 & -> & ->)].
+      + now rewrite (after_append_none _ Hna).
+      + apply no_append_app in Hna. now rewrite (after_append_mid _ _ _ _ (proj1 Hna)).
+    - destruct (run_events v cfg (s_hub s) (s_job s) (tr_full r) (tc_batch c) (tr_fail r) (tr_core r)) as [evs0 ok0].
+      injection Hstep as <- _ _. reflexivity. }
+  split; [|auto]. unfold run_spec_ok. rewrite Hhub.
+  assert (A1 : subsetN (tr_emitted (self_run r evs ok (s_job s'))) (map v_id (feed_of (s_hub s') (c_main cfg))) = true).
+  { apply subsetN_intro. intros m Hm. cbn [self_run tr_emitted] in Hm. eapply self_emitted_sub; eauto. }
+  rewrite A1. cbn [self_run tr_foreign]. cbn [N.eqb andb].
+  change (tr_main (self_run r evs ok (s_job s'))) with (fst (tok_obs (s_job s'))).
+  change (tr_deps (self_run r evs ok (s_job s'))) with (snd (tok_obs (s_job s'))).
+  change (tr_full (self_run r evs ok (s_job s'))) with (tr_full r).
+  change (tr_ok (self_run r evs ok (s_job s'))) with ok.
+  change (tr_emitted (self_run r evs ok (s_job s'))) with (sortN (concat (ev_ents evs))).
+  destruct (s_job s') as [tk'|] eqn:Ejob'; cbn [tok_obs fst snd]; [|reflexivity].
+  destruct (Hj' tk' Ejob') as ((Hd0 & Hm0) & Hdin' & Hmle').
+  destruct (Z.ltb_spec (t_main tk') 0) as [|_]; [lia|].
+  assert (A2 : tokens_in_range cfg (s_hub s') (t_main tk') (t_deps tk') = true).
+  { apply (tokens_in_range_jinv cfg s' tk' Hj'). exact Ejob'. }
+  rewrite A2. cbn [andb].
+  cbn [op_of] in Hstep. unfold wf_run in Hwf.
+  destruct (tr_mid r) as [[[k ds] vs]|] eqn:Emid; cbn [step] in Hstep.
+  - (* full sync with a scripted write *)
+    apply andb_true_iff in Hwf. destruct Hwf as [Hfull Hne]. rewrite Hfull.
+    destruct (run_events v cfg (s_hub s) (s_job s) true (tc_batch c) (tr_fail r) (tr_core r)) as [evs0 ok0] eqn:Er.
+    destruct (insert_mid evs0 k (EvAppend ds vs)) as [evs1 ins] eqn:Ei. injection Hstep as Es' <- <-.
+    destruct ok0; [|reflexivity].
+    destruct (full_run_token v cfg (s_hub s) (s_job s) true (tc_batch c) (tr_fail r) (tr_core r) evs0 true Hb eq_refl Er)
+      as [_ Hok]. destruct (Hok eq_refl) as (fin & Hlast & Hall).
+    assert (Hents : forall m, In m (ents_of evs0) -> In m (ents_of evs1)).
+    { destruct (insert_mid_spec _ _ _ _ _ Ei) as [[_ ->]|(_ & e1 & e2 & -> & ->)]; auto.
+      intros m Hm. rewrite ents_of_app in *. exact Hm. }
+    assert (Hl1 : last_tok evs1 (s_job s) = last_tok evs0 (s_job s)).
+    { destruct (insert_mid_spec _ _ _ _ _ Ei) as [[_ ->]|(_ & e1 & e2 & -> & ->)]; auto.
+      rewrite !last_tok_app. reflexivity. }
+    assert (Htk' : tk' = mkTok fin (wm_tokens v cfg (s_hub s) (tr_core r))).
+    { rewrite <- Es' in Ejob'. cbn [s_job] in Ejob'. rewrite Hl1, Hlast in Ejob'. now injection Ejob'. }
+    assert (Hmainfeed : feed_of (s_hub s') (c_main cfg) = feed_of (s_hub s) (c_main cfg)).
+    { rewrite <- Es'. cbn [s_hub]. destruct ins; auto. unfold append_hub, feed_of. cbn [h_feeds].
+      rewrite nth_set_nth. apply negb_true_iff, Nat.eqb_neq in Hne. change (c_main cfg) with (tc_main c).
+      destruct (Nat.eqb_spec (tc_main c) ds) as [e|]; [exfalso; apply Hne; now rewrite e|reflexivity]. }
+    apply andb_true_iff. split.
+    + apply subsetN_intro. intros m Hm. apply filter_In in Hm. destruct Hm as [Hm _]. rewrite Hmainfeed in Hm.
+      apply self_emitted_sup. auto.
+    + unfold mid_covered. cbn [self_run tr_mid tr_middone tr_deps tr_late]. rewrite Emid.
+      destruct (after_append evs1); [|reflexivity]. cbn [negb orb].
+      apply forallb_forall. intros dp Hdp. destruct (Nat.eqb_spec (d_ds dp) ds) as [Eds|]; [|reflexivity].
+      cbn [negb orb]. apply forallb_nil_range. apply range_tails_empty.
+      cbn [tok_obs snd]. rewrite Htk'. cbn [t_deps]. rewrite <- Eds.
+      destruct (wm_tokens_own v cfg (s_hub s) (tr_core r) Hw) as [Hwm _]. rewrite (Hwm dp Hdp). lia.
+  - destruct (run_events v cfg (s_hub s) (s_job s) (tr_full r) (tc_batch c) (tr_fail r) (tr_core r)) as [evs0 ok0] eqn:Er.
+    injection Hstep as Es' <- <-.
+    assert (Hhub' : s_hub s' = s_hub s) by (rewrite <- Es'; reflexivity).
+    destruct (if tr_full r then None else s_job s) as [tk|] eqn:Ej.
+    + (* incremental run *)
+      assert (Hjob : s_job s = Some tk) by (destruct (tr_full r); [discriminate|auto]).
+      destruct (Hj tk Hjob) as (Hok & Hdin & Hmle).
+      unfold run_events in Er. rewrite Ej in Er.
+      apply cut_calls_prefix in Er. destruct Er as (l1 & l2 & Hsp & -> & _).
+      apply map_eq_app' in Hsp. destruct Hsp as (cs1 & cs2 & Hcs & -> & _).
+      rewrite map_map in *. change (map (fun x : call => ev_of_pair (k_ents x, Some (k_tok x)))) with (map ev_of_call) in *.
+      assert (Htk' : tk' = tok_after cs1 tk).
+      { rewrite <- Es' in Ejob'. cbn [s_job] in Ejob'. rewrite Hjob, last_tok_calls in Ejob'. now injection Ejob'. }
+      rewrite Hhub'.
+      destruct cs1 as [|k0 cs1r] using rev_ind.
+      * (* nothing persisted: the token is the one the run started with *)
+        cbn [tok_after fold_left] in Htk'. subst tk'. apply andb_true_iff. split.
+        -- apply forallb_forall. intros dp Hdp. unfold dep_covered. apply forallb_nil_range, range_tails_empty. lia.
+        -- unfold main_covered. apply forallb_nil_range, range_tails_empty. lia.
+      * clear IHcs1r. rewrite tok_after_app in Htk'. cbn [tok_after fold_left] in Htk'. subst tk'.
+        rewrite <- app_assoc in Hcs. cbn [app] in Hcs.
+        assert (HE : forall m, In m (ents (cs1r ++ [k0])) -> In m (sortN (concat (ev_ents (map ev_of_call (cs1r ++ [k0])))))).
+        { intros m Hm. apply self_emitted_sup. now rewrite ents_of_calls. }
+        apply andb_true_iff. split.
+        -- apply forallb_forall. intros dp Hdp.
+           exact (inc_dep_covered v cfg (s_hub s) (tc_batch c) Hs Hp Hsk Hb tk cs1r k0 cs2 _ dp Hok Hcs HE Hdp).
+        -- exact (inc_main_covered v cfg (s_hub s) (tc_batch c) Hs Hp Hsk Hb tk cs1r k0 cs2 _ Hok Hcs HE).
+    + (* full sync *)
+      destruct ok0; [|reflexivity].
+      destruct (full_run_token v cfg (s_hub s) (s_job s) (tr_full r) (tc_batch c) (tr_fail r) (tr_core r) evs0 true Hb Ej Er)
+        as [_ Hok]. destruct (Hok eq_refl) as (fin & Hlast & Hall).
+      apply andb_true_iff. split.
+      * apply subsetN_intro. intros m Hm. apply filter_In in Hm. destruct Hm as [Hm _]. rewrite Hhub' in Hm.
+        apply self_emitted_sup. auto.
+      * unfold mid_covered. cbn [self_run tr_mid]. rewrite Emid. reflexivity.
+Qed.
+
+
+Lemma spec_ops_ext : forall c1 c2 ops h before,
+  cfg_of c1 = cfg_of c2 -> spec_ops c1 h before ops = spec_ops c2 h before ops.
+Proof.
+  intros c1 c2 ops. induction ops as [|o ops IH]; intros h before E; cbn [spec_ops]; auto.
+  destruct o as [k vs|r]; [auto|]. rewrite E. f_equal. auto.
+Qed.
+
+Definition wf_ops (c : tcase) (ops : list top) : bool :=
+  forallb (fun o => match o with TRun r => wf_run c r | _ => true end) ops.
+
+Lemma self_spec_ops : forall v c ops s,
+  sound_l v (cfg_of c) -> (1 <= tc_batch c)%nat -> wf_ops c ops = true -> jinv (cfg_of c) s ->
+  spec_ops c (s_hub s) (s_job s) (self_ops v c s ops) = true.
+Proof.
+  intros v c. induction ops as [|o ops IH]; intros s Hv Hb Hwf Hj; cbn [self_ops spec_ops]; auto.
+  cbn [wf_ops forallb] in Hwf. apply andb_true_iff in Hwf. destruct Hwf as [Hwo Hwf].
+  destruct (step v (cfg_of c) s (op_of c o)) as [[s' evs] ok] eqn:E.
+  destruct o as [k vs|r]; cbn [spec_ops].
+  - assert (Hj' : jinv (cfg_of c) s') by (eapply step_jinv; eauto; exact I).
+    cbn [op_of step] in E. injection E as <- _ _. cbn [s_hub s_job] in *. apply (IH _ Hv Hb Hwf Hj').
+  - destruct (self_run_spec v c s r s' evs ok Hv Hb Hwo Hj E) as (Hspec & Hhub & Hobs & Hj').
+    rewrite Hspec, Hhub, Hobs. cbn [andb]. auto.
+Qed.
+
+(** The model, in its repaired form, meets the executable spec on its own observations - for every case
+    (any graph, history, join list, batch size, LatestOnly flag, sink failures, writes during a full sync). *)
+Theorem model_meets_spec : forall v c,
+  sound_l v (cfg_of c) -> wf_case c = true -> spec_ok (selfobs v c) = true.
+Proof.
+  intros v c Hv Hwf. unfold wf_case in Hwf. apply andb_true_iff in Hwf. destruct Hwf as [Hb Hwf].
+  apply Nat.leb_le in Hb. unfold spec_ok. cbn [selfobs tc_n tc_ops].
+  rewrite (spec_ops_ext (selfobs v c) c) by reflexivity.
+  apply (self_spec_ops v c (tc_ops c) (init_state (tc_n c)) Hv Hb Hwf). intros tk Htk. discriminate.
+Qed.
+
+(** * agreement pins the observations down to the model's, except where the model says nothing *)
+Lemma nlist_eqb_eq : forall a b, list_eqb N.eqb a b = true -> a = b.
+Proof. intros a b H. apply (list_eqb_eq N.eqb); auto. intros x y. apply N.eqb_eq. Qed.
+Lemma natlist_eqb_eq : forall a b, list_eqb Nat.eqb a b = true -> a = b.
+Proof. intros a b H. apply (list_eqb_eq Nat.eqb); auto. intros x y. apply Nat.eqb_eq. Qed.
+Lemma natzlist_eqb_eq : forall a b, list_eqb natz_eqb a b = true -> a = b.
+Proof.
+  intros a b H. apply (list_eqb_eq natz_eqb); auto. intros [x1 z1] [x2 z2]. unfold natz_eqb. cbn [fst snd].
+  rewrite andb_true_iff, Nat.eqb_eq, Z.eqb_eq. split; [intros [-> ->]; reflexivity|intros [= -> ->]; auto].
+Qed.
+
+Lemma run_agree_self : forall evs ok job r, run_agree evs ok job r = true -> ok_run r evs = self_run r evs ok job.
+Proof.
+  intros evs ok job r H. unfold run_agree in H.
+  apply andb_true_iff in H. destruct H as [H Hdeps]. apply andb_true_iff in H. destruct H as [H Hmain].
+  apply andb_true_iff in H. destruct H as [H Hem]. apply andb_true_iff in H. destruct H as [H Hcalls].
+  apply andb_true_iff in H. destruct H as [Hmid Hok].
+  apply eqb_prop in Hok. apply natlist_eqb_eq in Hcalls. apply Z.eqb_eq in Hmain. apply natzlist_eqb_eq in Hdeps.
+  unfold ok_run, self_run. rewrite <- Hok, <- Hcalls, <- Hmain, <- Hdeps.
+  assert (He : (if ok then tr_emitted r else sortN (concat (ev_ents evs))) = sortN (concat (ev_ents evs))).
+  { destruct ok; auto. apply nlist_eqb_eq in Hem. auto. }
+  rewrite He. destruct (after_append evs) as [late|].
+  - apply andb_true_iff in Hmid. destruct Hmid as [-> Hl]. f_equal. destruct ok; auto. apply nlist_eqb_eq in Hl. auto.
+  - apply negb_true_iff in Hmid. rewrite Hmid. reflexivity.
+Qed.
+
+Lemma agree_ok_self : forall v c ops s, agree_ops v c s ops = true -> ok_ops v c s ops = self_ops v c s ops.
+Proof.
+  intros v c. induction ops as [|o ops IH]; intros s H; cbn [agree_ops ok_ops self_ops] in *; auto.
+  destruct (step v (cfg_of c) s (op_of c o)) as [[s' evs] ok]. apply andb_true_iff in H. destruct H as [Hr H].
+  rewrite (IH _ H). destruct o as [k vs|r]; auto. now rewrite (run_agree_self _ _ _ _ Hr).
+Qed.
+
+(** C18_agree_implies_spec.  If the implementation's observations of a (well-formed) case agree with the
+    repaired model, the whole executable spec holds on them - main-only, tokens in range, run-level coverage
+    including runs cut short by a sink failure, full-sync delivery, the write-during-full-sync clause - where the
+    two observations agreement cannot determine are taken from the model ([okobs]: the marker count, and which ids
+    a FAILED run had delivered; for these [spec_ok] is evaluated on the implementation's observation by the
+    check, not linked). *)
+Theorem agree_implies_spec : forall v c,
+  sound_l v (cfg_of c) -> wf_case c = true -> agree v c = true -> spec_ok (okobs v c) = true.
+Proof.
+  intros v c Hv Hwf Ha. unfold agree in Ha. apply andb_true_iff in Ha. destruct Ha as [_ Ha].
+  assert (E : okobs v c = selfobs v c).
+  { unfold okobs, selfobs. now rewrite (agree_ok_self v c _ _ Ha). }
+  rewrite E. now apply model_meets_spec.
+Qed.
+
+(** on runs that ended OK the implementation's own delivered ids are the ones used *)
+Lemma okobs_keeps_ok_runs : forall r evs, tr_ok r = true ->
+  tr_emitted (ok_run r evs) = tr_emitted r /\ tr_calls (ok_run r evs) = tr_calls r /\
+  tr_main (ok_run r evs) = tr_main r /\ tr_deps (ok_run r evs) = tr_deps r.
+Proof. intros r evs H. unfold ok_run. cbn. now rewrite H. Qed.
+
+
+Lemma ev_ents_sub : forall evs x, In x (concat (ev_ents evs)) -> In x (ents_of evs).
+Proof.
+  induction evs as [|e evs IH]; intros x H; cbn in *; [auto|].
+  destruct e as [k vs|es tk]; [auto|]. destruct es as [|y es]; [cbn; auto|].
+  cbn [concat] in H. apply in_app_or in H. apply in_or_app. destruct H; auto.
 Qed.
 
 (** what agreement on one run gives: the observed "write performed" flag is the model's, and the ids of a
